@@ -251,6 +251,11 @@ func checkC05(rep *core.Report) {
 	r3 := rep.Rule("R05.3", "an encoder error stops encoding before the next write", 4)
 	r4 := rep.Rule("R05.4", "numbers are formatted exactly (value-preserving conversions, own bit size)", 40)
 	r6 := rep.Rule("R05.6", "sFlow payload is the unmodified encoding/json result; its string fields hold JSON-safe text", 6)
+	// what is published is what was on the wire only if the value handed to the encoder has the signedness and width
+	// of the element's abstract type (the shared interpreter table, also decided in C03/C06)
+	r8 := rep.Rule("R05.8", "the value handed to the encoders has the Go type, width and signedness of the element's abstract data type", 40)
+	r8b := rep.Rule("R05.8b", "type names of the information model map to their own abstract types", 20)
+	checkInterpretTable(rep, r8, r8b)
 	r7 := rep.Rule("R05.7", "the encoders write only their own buffer and locals, never package-level scratch state", 1)
 	{
 		var encs []*ssa.Function
